@@ -44,7 +44,17 @@ func (r *lineLimitReader) Read(b []byte) (int, error) {
 		return n, nil
 	}
 
-	for _, chr := range b[:n] {
+	if !r.count(b[:n]) {
+		return 0, ErrTooLongLine
+	}
+
+	return n, nil
+}
+
+// count adds b to the length of the current line and reports whether every
+// line is still within the limit.
+func (r *lineLimitReader) count(b []byte) bool {
+	for _, chr := range b {
 		if chr == '\n' {
 			r.curLineLength = 0
 		}
@@ -52,9 +62,21 @@ func (r *lineLimitReader) Read(b []byte) (int, error) {
 
 		if r.curLineLength > r.LineLimit {
 			r.tripped = true
-			return 0, ErrTooLongLine
+			return false
 		}
 	}
+	return true
+}
 
-	return n, nil
+// resume puts the limit back after it was lifted for data that does not
+// consist of command lines (a BDAT chunk). What was counted before and during
+// that data says nothing about the command line that follows it. pending is
+// what has been read from r but not been consumed yet, that is the beginning
+// of the next command lines: it is counted now.
+func (r *lineLimitReader) resume(limit int, pending []byte) {
+	r.LineLimit = limit
+	r.curLineLength = 0
+	if limit > 0 {
+		r.count(pending)
+	}
 }
